@@ -174,6 +174,50 @@ fn gen_units(rng: &mut Rng) -> Numeral {
     Numeral { text, expected, shape }
 }
 
+/// decimal coefficient of one large unit: "1.5万" = 15000, "3.14159万" = 31415.9
+fn gen_decimal_unit(rng: &mut Rng) -> Numeral {
+    let il = 1 + rng.below(3);
+    let fl = 1 + rng.below(6);
+    let mut int: Vec<u32> = (0..il).map(|_| rng.below(10) as u32).collect();
+    if int[0] == 0 {
+        int[0] = 1 + rng.below(9) as u32;
+    }
+    let frac: Vec<u32> = (0..fl).map(|_| rng.below(10) as u32).collect();
+    let (uc, k) = LARGE[rng.below(3)];
+    let mut text = String::new();
+    for d in &int {
+        let kj = rng.chance(1, 4);
+        text.push(digit(rng, *d, kj));
+    }
+    text.push('.');
+    for d in &frac {
+        let kj = rng.chance(1, 4);
+        text.push(digit(rng, *d, kj));
+    }
+    text.push(uc);
+    Numeral { text, expected: shift_decimal(&int, &frac, k), shape: "decimal-coefficient" }
+}
+
+/// I.F x 10^k as a decimal string (trailing fractional zeros dropped)
+fn shift_decimal(int: &[u32], frac: &[u32], k: usize) -> String {
+    let mut digits: Vec<u32> = int.to_vec();
+    digits.extend_from_slice(frac);
+    let point = int.len() + k;
+    while digits.len() < point {
+        digits.push(0);
+    }
+    let mut s: String = digits[..point].iter().map(|d| char::from_digit(*d, 10).unwrap()).collect();
+    let mut f: String = digits[point..].iter().map(|d| char::from_digit(*d, 10).unwrap()).collect();
+    while f.ends_with('0') {
+        f.pop();
+    }
+    if !f.is_empty() {
+        s.push('.');
+        s.push_str(&f);
+    }
+    s
+}
+
 #[derive(Debug, PartialEq)]
 pub enum Eval {
     Value(String),
@@ -204,6 +248,20 @@ pub fn evaluate(tok: &str) -> Eval {
     }
     if chars[0] == ',' || chars[chars.len() - 1] == ',' {
         return Eval::Malformed("dangling separator");
+    }
+    // <digits>.<digits><large unit>
+    if npoints == 1 {
+        let last = chars[chars.len() - 1];
+        if let Some(li) = LARGE.iter().position(|l| l.0 == last) {
+            let body = &chars[..chars.len() - 1];
+            let p = body.iter().position(|c| *c == '.').unwrap_or(0);
+            let (i, f) = (&body[..p], &body[p + 1..]);
+            if !i.is_empty() && !f.is_empty() && i.iter().chain(f.iter()).all(|c| dval(*c).is_some()) && dval(i[0]) != Some(0) {
+                let iv: Vec<u32> = i.iter().map(|c| dval(*c).unwrap()).collect();
+                let fv: Vec<u32> = f.iter().map(|c| dval(*c).unwrap()).collect();
+                return Eval::Value(shift_decimal(&iv, &fv, LARGE[li].1));
+            }
+        }
     }
     let (int_part, frac_part): (Vec<char>, Vec<char>) = match chars.iter().position(|c| *c == '.') {
         Some(p) => (chars[..p].to_vec(), chars[p + 1..].to_vec()),
@@ -458,7 +516,11 @@ pub fn run(ctx: &Ctx, rep: &mut Report) {
                 text.push_str(rng.s(&["約", "は", "x"]));
             }
             for j in 0..k {
-                let n = if rng.chance(1, 2) { gen_plain(&mut rng) } else { gen_units(&mut rng) };
+                let n = match rng.below(9) {
+                    0 => gen_decimal_unit(&mut rng),
+                    1..=4 => gen_plain(&mut rng),
+                    _ => gen_units(&mut rng),
+                };
                 let malformed = rng.chance(1, 4);
                 let raw = if malformed { mutate(&mut rng, &n) } else { n.text.clone() };
                 let spelled = if default_input && rng.chance(1, 3) { fullwidth(&raw) } else { raw.clone() };
